@@ -268,7 +268,7 @@ def check_compact(run, items, label):
     return impl, model
 
 
-def boundary_requests(run, antimeridian_cells=None):
+def boundary_requests(run, antimeridian_cells=None, frame_cells=None):
     """requests for cell_to_boundary with an explicit subdivision count at and beyond 2^16 (rings of 3*10^5 .. 10^6 points)"""
     rng = run.rng
     out = []
@@ -281,6 +281,11 @@ def boundary_requests(run, antimeridian_cells=None):
         # spacing below 1e-13 degrees: resolution-29 cells with 1.5e6 and 2^21 segments per edge (rings of 7.5e6 / 1.05e7 points)
         for n in (1500000, 2097152):
             out.append((f"digest cell_to_boundary {gen.rand_cell(rng, 29)} {rng.randint(0, 1)} {n}", (5 * n + 1, None, None)))
+    if not run.quick and frame_cells:
+        # deepest cells with a corner ON a vertex of the projection's triangles (face centre, dodecahedron vertex, edge midpoint), so
+        # finely subdivided that neighbouring ring points fall inside the projection's corner snap (5e5 segments per edge)
+        for c in rng.sample(frame_cells, min(2, len(frame_cells))):
+            out.append((f"digest cell_to_boundary {c} {rng.randint(0, 1)} 500000", (5 * 500000 + 1, None, None)))
     if antimeridian_cells:
         # rings of more than 2^20 points on cells that cross the antimeridian (the unwrapping must act on the ring as a whole)
         for n in ([262144] if run.quick else [209716, 262144, 524288]):
